@@ -128,3 +128,177 @@ Fixpoint cpp_lay (t : ty) (v : value) (pos : Z) {struct t} : list seg :=
   end.
 
 Definition cpp_encode (e : endian) (t : ty) (v : value) : bytes := render e (cpp_lay t v 0).
+
+(* ---- decode<E>(): generate_struct_decode / generate_union_decode over detail/decoder.hpp.
+   Every helper of the header tests `size_t(end - pos) < n` before it loads; the model keeps the tests
+   and the loads apart: a load outside [data, data + size) is [CCrash] (undefined behaviour), a failed
+   test is [CFalse] (the function returns false). [remaining] is the pointer difference reinterpreted
+   as size_t, so a cursor that ever ran past `end` makes every later test pass — exactly the way an
+   unchecked advance turns into an out-of-bounds read. Counters are not members of the C++ class: the
+   value tree records, at the counter's position, the size the array was resized to. ---- *)
+Inductive cres (A : Type) : Type := CTrue (a : A) | CFalse | CCrash.
+Arguments CTrue {A} a. Arguments CFalse {A}. Arguments CCrash {A}.
+
+Definition cbind {A B} (r : cres A) (k : A -> cres B) : cres B :=
+  match r with CTrue a => k a | CFalse => CFalse | CCrash => CCrash end.
+
+Definition size_t (z : Z) : Z := z mod 2 ^ 64.
+
+Section CppDec.
+  Variable e : endian.
+  Variable data : bytes.                         (* [data, data + size) *)
+  Variable decV : ty -> Z -> cres (value * Z).   (* message_impl<T>::decode<E>(x, pos, end) of a composite: value, new pos *)
+
+  Definition remaining (pos : Z) : Z := size_t (len data - pos).
+
+  (* decode_int<E>(x, pos): a raw load *)
+  Definition cpp_load (w pos : Z) : cres Z :=
+    if (0 <=? pos) && (pos + w <=? len data) then CTrue (dec_uint e (slice data pos w)) else CCrash.
+
+  Definition cpp_reinterpret (k : sk) (u : Z) : Z :=
+    if py_fmt_signed k then to_signed (pc_builtin_size k) u else u.
+
+  (* decoder<E, T>::decode(x, pos, end) for integers, floats (as bit patterns), bytes and enums *)
+  Definition cpp_dec_scalar (t : ty) (pos : Z) : cres (value * Z) :=
+    match t with
+    | TScalar k =>
+        let w := pc_builtin_size k in
+        if remaining pos <? w then CFalse
+        else cbind (cpp_load w pos) (fun u => CTrue (VInt (cpp_reinterpret k u), pos + w))
+    | TByte =>
+        if remaining pos <? pc_byte_size then CFalse
+        else cbind (cpp_load pc_byte_size pos) (fun u => CTrue (VInt u, pos + pc_byte_size))
+    | TEnum _ =>
+        if remaining pos <? pc_enum_size then CFalse
+        else cbind (cpp_load pc_enum_size pos) (fun u => CTrue (VInt u, pos + pc_enum_size))   (* static_cast<T>(data): any value *)
+    | _ => CCrash
+    end.
+
+  Definition cpp_dec_obj (t : ty) (pos : Z) : cres (value * Z) :=
+    match t with
+    | TStruct _ | TUnion _ => decV t pos
+    | _ => cpp_dec_scalar t pos
+    end.
+
+  Definition cpp_elem_size (t : ty) : Z := match t with TByte => pc_byte_size | TEnum _ => pc_enum_size | _ => pc_size t end.
+
+  (* decoder<E, T>::decode(x, n, pos, end): scalars test n * sizeof(T) once, composites go one by one *)
+  Definition cpp_dec_loop (t : ty) : nat -> Z -> cres (list value * Z) :=
+    fix go (n : nat) (pos : Z) : cres (list value * Z) :=
+      match n with
+      | O => CTrue ([], pos)
+      | S m =>
+          cbind (match t with
+                 | TStruct _ | TUnion _ => decV t pos
+                 | TScalar k => cbind (cpp_load (pc_builtin_size k) pos) (fun u => CTrue (VInt (cpp_reinterpret k u), pos + pc_builtin_size k))
+                 | _ => cbind (cpp_load (cpp_elem_size t) pos) (fun u => CTrue (VInt u, pos + cpp_elem_size t))
+                 end) (fun r =>
+          cbind (go m (snd r)) (fun rs => CTrue (fst r :: fst rs, snd rs)))
+      end.
+
+  Definition cpp_dec_n (t : ty) (n : Z) (pos : Z) : cres (list value * Z) :=
+    match t with
+    | TStruct _ | TUnion _ => cpp_dec_loop t (Z.to_nat n) pos
+    | _ => if remaining pos <? n * cpp_elem_size t then CFalse else cpp_dec_loop t (Z.to_nat n) pos     (* n * sizeof(T) is assumed not to overflow size_t *)
+    end.
+
+  (* do_decode_advance / do_decode_align<A> *)
+  Definition cpp_advance (n pos : Z) : cres Z := if remaining pos <? n then CFalse else CTrue (pos + n).
+  Definition cpp_align_to (a pos : Z) : cres Z := if len data <? cpp_align a pos then CFalse else CTrue (cpp_align a pos).
+
+  (* decoder_greedy<E, T, true>: elements until one fails; a failed element is not consumed *)
+  Definition cpp_dec_greedy_dyn (t : ty) : nat -> Z -> cres (list value * Z) :=
+    fix go (fuel : nat) (pos : Z) : cres (list value * Z) :=
+      match fuel with
+      | O => CCrash                                            (* the `while (true)` did not end within the fuel *)
+      | S f =>
+          match decV t pos with
+          | CTrue r => cbind (go f (snd r)) (fun rs => CTrue (fst r :: fst rs, snd rs))
+          | CFalse => CTrue ([], pos)
+          | CCrash => CCrash
+          end
+      end.
+
+  (* one member's statements (before its padding statement); [decoded]: the members before it *)
+  Definition cpp_dec_member (fuel : nat) (fs : list field) (decoded : list value) (i : nat) (f : field) (m : pcm) (pos : Z)
+    : cres (value * Z) :=
+    let t := snd f in
+    let sized (s : nat) : cres Z := match nth_error decoded s with Some (VInt n) => CTrue n | _ => CCrash end in
+    match fst f with
+    | FFixed n => cbind (cpp_dec_n t n pos) (fun r => CTrue (VList (fst r), snd r))
+    | FBound s => cbind (sized s) (fun n => cbind (cpp_dec_n t n pos) (fun r => CTrue (VList (fst r), snd r)))
+    | FLimited _ s =>
+        cbind (sized s) (fun n =>
+        cbind (cpp_dec_n t n pos) (fun r =>                     (* do_decode_in_place: pos is passed by value *)
+        cbind (cpp_advance (pm_size m) pos) (fun p => CTrue (VList (fst r), p))))
+    | FGreedy =>
+        match t with
+        | TStruct _ | TUnion _ =>
+            if pc_kind t =? K_FIXED
+            then let n := remaining pos / pc_size t in cbind (cpp_dec_n t n pos) (fun r => CTrue (VList (fst r), snd r))
+            else cbind (cpp_dec_greedy_dyn t fuel pos) (fun r => CTrue (VList (fst r), snd r))
+        | _ => let n := remaining pos / cpp_elem_size t in cbind (cpp_dec_n t n pos) (fun r => CTrue (VList (fst r), snd r))
+        end
+    | FOpt =>
+        cbind (cpp_dec_scalar (TScalar U32) pos) (fun d =>
+        let flag := match fst d with VInt z => z | _ => 0 end in
+        cbind (if 4 <? pm_align m then cpp_advance (pm_align m - 4) (snd d) else CTrue (snd d)) (fun p =>
+        if flag =? 0 then cbind (cpp_advance (cpp_elem_size t) p) (fun q => CTrue (VNone, q))
+        else cbind (cpp_dec_obj t p) (fun r => CTrue (VSome (fst r), snd r))))
+    | FPlain =>
+        if is_sizer fs i then
+          (* do_decode_resize<E, CT>(x.array, pos, end, max) *)
+          match t with
+          | TScalar k =>
+              cbind (cpp_dec_scalar t pos) (fun r =>
+              let n := size_t (match fst r with VInt z => z | _ => 0 end) in
+              let maxn := fold_right (fun g acc => match fst g with FLimited lim s => if Nat.eqb s i then lim else acc | _ => acc end) (2 ^ 64 - 1) fs in
+              if maxn <? n then CFalse
+              else if remaining (snd r) <? n then CFalse
+              else CTrue (VInt n, snd r))
+          | _ => CCrash
+          end
+        else cpp_dec_obj t pos
+    end.
+
+  Fixpoint cpp_dec_fields (fuel : nat) (all_fs : list field) (fs : list field) (ms : list pcm) (ps : list Z) (i : nat)
+           (decoded : list value) (pos : Z) : cres (list value * Z) :=
+    match fs, ms, ps with
+    | f :: fr, m :: mr, p :: pr =>
+        cbind (cpp_dec_member fuel all_fs decoded i f m pos) (fun r =>
+        cbind (if p <? 0 then cpp_align_to (- p) (snd r) else if 0 <? p then cpp_advance p (snd r) else CTrue (snd r)) (fun pos' =>
+        cpp_dec_fields fuel all_fs fr mr pr (S i) (decoded ++ [fst r]) pos'))
+    | _, _, _ => CTrue (decoded, pos)
+    end.
+
+  Fixpoint cpp_dec_arm (arms : list (Z * ty)) (i : nat) (disc : Z) (pos : Z) : cres value :=
+    match arms with
+    | [] => CFalse                                             (* default: return false *)
+    | a :: r =>
+        if fst a =? disc
+        then cbind (cpp_dec_obj (snd a) pos) (fun x => CTrue (VUnion i (fst x)))   (* do_decode_in_place *)
+        else cpp_dec_arm r (S i) disc pos
+    end.
+End CppDec.
+
+Fixpoint cpp_dec (e : endian) (data : bytes) (fuel : nat) (t : ty) (pos : Z) {struct t} : cres (value * Z) :=
+  match t with
+  | TStruct fs =>
+      cbind (cpp_dec_fields e data (cpp_dec e data fuel) fuel fs fs (map (pc_member pc_size pc_align pc_kind) fs)
+                            (pc_paddings fs) 0 [] pos) (fun r => CTrue (VStruct (fst r), snd r))
+  | TUnion arms =>
+      let discpad := if pc_disc_size <? pc_align t then pc_align t - pc_disc_size else 0 in
+      cbind (cpp_dec_scalar e data (TEnum []) pos) (fun d =>
+      cbind (if 0 <? discpad then cpp_advance data discpad (snd d) else CTrue (snd d)) (fun p =>
+      cbind (cpp_dec_arm e data (cpp_dec e data fuel) arms 0 (match fst d with VInt z => z | _ => 0 end) p) (fun v =>
+      cbind (cpp_advance data (pc_size t - pc_disc_size - discpad) p) (fun q => CTrue (v, q)))))
+  | _ => CCrash
+  end.
+
+(* message<T>::decode<E>(data, size): success && bytes_read == size *)
+Definition cpp_decode (e : endian) (t : ty) (data : bytes) : cres value :=
+  match cpp_dec e data (S (length data)) t 0 with
+  | CTrue (v, p) => if p =? len data then CTrue v else CFalse
+  | CFalse => CFalse
+  | CCrash => CCrash
+  end.
